@@ -3,7 +3,7 @@ From Coq Require Import String.
 From Coq Require Import List NArith ZArith.
 From TarsV Require Import Base.Hex Idl.Lexer Idl.LexerProofs Idl.Parser Idl.ParserProofs Idl.Corr.
 From TarsV Require Import Idl.Print Idl.Render.
-From TarsV Require Idl.Schema Idl.SchemaProofs Idl.PrintProofs Idl.RenderProofs Idl.Accepts Codec.GenCodec Codec.Corr.
+From TarsV Require Idl.Schema Idl.SchemaProofs Idl.PrintProofs Idl.RenderProofs Idl.AnalyzeProofs Idl.Accepts Codec.GenCodec Codec.Corr.
 Import ListNotations.
 Open Scope N_scope.
 
@@ -65,7 +65,7 @@ Proof. exact PrintProofs.parse_print_instance_text. Qed.
 
 (* the lexer maps every rendering of a token sequence back to it: any spelling of a word / number that readIdent /
    readNumber collect and strconv accepts, strings, punctuation, "#include"; between tokens any blanks, line breaks,
-   "//" comments and "/* */" comments (without '*' inside); no gap needed where a token delimits itself or the next
+   "//" comments and "/* */" comments (no "*/" inside); no gap needed where a token delimits itself or the next
    one starts with a byte that ends the scan *)
 Theorem C16_lexer_render : forall lead ps, forallb wf_gap_item lead = true -> wf_pieces ps ->
   tokens_of (render lead ps) = Ok (map p_tok ps).
@@ -76,15 +76,24 @@ Theorem C16_accepts_rendered : forall name ds lead ps,
   forallb wf_gap_item lead = true -> wf_pieces ps ->
   parse_bytes (render lead ps) = match analyze (module_of name ds) with Ok m' => OOk m' | _ => OErr end.
 Proof. exact Accepts.accepts_rendered. Qed.
+(* ... and it is an AST, not a diagnostic, when the program's user type names are unqualified names of structs or
+   enums it declares and its named defaults name exactly one enum member *)
+Theorem C16_valid_accepted : forall name ds lead ps,
+  wf_decls (empty_module name) ds = true -> AnalyzeProofs.module_names_ok (module_of name ds) = true ->
+  map p_tok ps = print_prog name ds -> forallb wf_gap_item lead = true -> wf_pieces ps ->
+  exists m', analyze (module_of name ds) = Ok m' /\ parse_bytes (render lead ps) = OOk m'.
+Proof. exact Accepts.valid_accepted. Qed.
 Theorem C16_accepts_rendered_instance :
   render [GLine (bs "file")] Accepts.ex_pieces =
-    bs "//file" ++ [10] ++ bs "module /* c */" ++ [9] ++ bs "m{// x // y" ++ [10] ++ bs "struct" ++ [13; 10] ++ bs "S{0 require/**/int" ++ [12] ++ bs "a=-0x1f;};" ++ [10] ++ bs "};" /\
+    bs "//file" ++ [10] ++ bs "module /* c * d ***/" ++ [9] ++ bs "m{// x // y" ++ [10] ++ bs "struct" ++ [13; 10] ++ bs "S{0 require/**/int" ++ [12] ++ bs "a=-0x1f;};" ++ [10] ++ bs "};" /\
   wf_decls (empty_module (bs "m")) Accepts.ex_decls = true /\ map p_tok Accepts.ex_pieces = print_prog (bs "m") Accepts.ex_decls /\
-  forallb wf_gap_item [GLine (bs "file")] = true /\ wf_pieces Accepts.ex_pieces.
+  forallb wf_gap_item [GLine (bs "file")] = true /\ wf_pieces Accepts.ex_pieces /\
+  AnalyzeProofs.module_names_ok (module_of (bs "m") Accepts.ex_decls) = true.
 Proof. exact Accepts.accepts_rendered_instance. Qed.
 
 Print Assumptions C16_lexer_render.
 Print Assumptions C16_accepts_rendered.
+Print Assumptions C16_valid_accepted.
 Print Assumptions C16_accepts_rendered_instance.
 Print Assumptions C16_accepts_grammar_tokens.
 Print Assumptions C16_accepts_grammar.
